@@ -13,9 +13,8 @@ EXPLANATION = (
     "on-text to be the off-text with straight quotes replaced in place by one of the configured quote strings or an apostrophe."
 )
 BOUNDS = {
-    "quick": "text = 2 free characters (followed by a quote) over the typographic alphabet (\" ' a 1 space . - + ( ) c \\ * ` &) plus 12 scaffolds (code span, link with title, autolink, "
-             "raw html, escapes, entities, nested emphasis) with 1-2 free characters; quotes = 4 symbolic characters; list-of-strings form with lengths 0-2",
-    "thorough": "3 free characters; scaffolds with 2 free characters; both presets",
+    "quick": 'one free character from 8 characters of the typographic alphabet (" \' a space . - ( \\) in a quoted-text scaffold under smartquotes / replacements / both, and in 9 context scaffolds (code span, autolink, escapes+entities, paragraphs, lists+quote, code blocks); default quotes; list-of-strings quotes with lengths 0-2 (3 layouts)',
+    "thorough": 'all quick jobs (core) plus the deeper families of thorough_extra() (not core): more free characters, the commonmark preset, the contexts the quick tier had to shed (DESIGN.md 10.5)',
 }
 OUTSIDE = "quote strings longer than 2; text longer than 4 free characters"
 ASSUMPTIONS = ["CR/NUL-free sources", "comparison before text_join reads the token list after running the core chain up to (excluding) text_join"]
